@@ -1,5 +1,5 @@
 (* Tie lemmas: threshold setting regenerated from the current source = hand model, for all inputs. *)
-From SA Require Import Model.Threshold.
+From SA Require Import Model.Threshold Proofs.TieSupport.
 From Gen Require Import Gen_thr.
 Open Scope Q_scope.
 
@@ -22,7 +22,11 @@ Lemma tie_hard_ratio : forall s, gen_hard_ratio s = hard_ratio s.
 Proof. intro s. unfold gen_hard_ratio, hard_ratio. rewrite tie_easy_ratio. reflexivity. Qed.
 
 Lemma tie_inv_incr : forall succ pred l u lc m, gen_inv_incr succ pred l u lc m = inv_incr succ pred l u lc m.
-Proof. intros. unfold gen_inv_incr, inv_incr. destruct lc, m; reflexivity. Qed.
+Proof.
+  intros. unfold gen_inv_incr, inv_incr.
+  first [ destruct lc, m; reflexivity
+        | cbv zeta; rewrite !nthZ_clip_eq; destruct lc, m; reflexivity ].
+Qed.
 
 Lemma tie_threshold_at_ratio : forall succ pred s l u inc rc m,
   gen_threshold_at_ratio succ pred s l u inc rc m = threshold_at_ratio succ pred s l u inc rc m.
